@@ -401,7 +401,7 @@ namespace avel {
 
         #if (defined(AVEL_AVX512VL) && defined(AVEL_AVX512BW)) || defined(AVEL_AVX10_1)
         auto mask = b << N;
-        return mask8x16u{__mmask8((decay(m) & ~mask) | mask)};
+        return mask8x16u{__mmask8((decay(m) & ~(1u << N)) | mask)};
 
         #elif defined(AVEL_SSE2)
         return mask8x16u{_mm_insert_epi16(decay(m), b ? -1 : 0, N)};
